@@ -4,6 +4,7 @@
  *   mmap(anonymous)   : MAP_FAILED, or a fresh zero-filled region of len bytes
  *   mmap(file)        : MAP_FAILED (always for len == 0), or a fresh region of roundup(len, 4096)
  *                       bytes holding the file's bytes followed by zeros up to the page end
+ *   read(regular file): -1, 0 (premature end of file) or the number of bytes asked for
  *   mremap(MAYMOVE)   : MAP_FAILED with the old region untouched, or a fresh region of new_size
  *                       bytes whose first old_size bytes equal the old ones; the old region is gone
  *   munmap/close      : 0 or -1 ; open: -1 or a descriptor ; fstat: -1 or 0 with st_size = file size
@@ -22,7 +23,9 @@ uint8_t g_probe_val; _Bool g_probe_set;
 void *g_munmap_ptr; size_t g_munmap_len; unsigned g_munmap_calls;
 const void *g_fwrite_ptr; size_t g_fwrite_size, g_fwrite_n, g_fwrite_ret; unsigned g_fwrite_calls;
 int g_fclose_ret = -2; int g_fopen_ok; int g_mremap_ok;
-size_t g_map_size;               /* size of the last file mapping */
+size_t g_map_size;               /* size of the last mapping */
+size_t g_zero_idx;               /* ghost index: one arbitrary position of an anonymous mapping, zero like all others */
+size_t g_read_total;             /* bytes delivered by read() so far */
 int g_fault;                     /* set when a model injects a failure */
 #define FAULT() (nondet_bool() ? (g_fault = 1, 1) : 0)
 
@@ -30,8 +33,14 @@ void *mmap(void *addr, size_t len, int prot, int flags, int fd, off_t off) {
   if (len == 0) return MAP_FAILED;          /* EINVAL: not an injected fault */
   if (FAULT()) return MAP_FAILED;
   if (flags & MAP_ANONYMOUS) {
+    /* zero-filled: modelled for the last byte and for one arbitrary ghost position (instead of a quantifier) */
     uint8_t *p = malloc(len);
     __CPROVER_assume(p != NULL);
+    p[len - 1] = 0;
+#ifdef OS_MODEL_ZERO_GHOST
+    if (g_zero_idx < len) p[g_zero_idx] = 0;
+#endif
+    g_map_size = len;
     return p;
   }
   size_t sz = ((len + OS_PAGE - 1) / OS_PAGE) * OS_PAGE;
@@ -56,6 +65,14 @@ int munmap(void *p, size_t len) { g_munmap_ptr = p; g_munmap_len = len; g_munmap
 /* open is variadic (DFCC mis-handles write-set checks in variadic bodies): the harness maps open(p, f, m) to vf_open(p) */
 int vf_open(const char *path) { if (FAULT()) return -1; return 3; }
 int fstat(int fd, struct stat *st) { if (FAULT()) return -1; st->st_size = (off_t)g_file_len; return 0; }
+/* read on a regular file: fails, hits a premature end of file (the file shrank), or delivers the bytes asked for
+ * (short reads of regular files are not modelled; the library's loop handles them).  The bytes are arbitrary. */
+ssize_t read(int fd, void *buf, size_t n) {
+  if (FAULT()) return nondet_bool() ? -1 : 0;
+  if (n > 0) { size_t k; __CPROVER_assume(k < n); char c; ((char *)buf)[k] = c; }   /* one arbitrary byte of the range: any content */
+  g_read_total += n;
+  return (ssize_t)n;
+}
 int close(int fd) { return nondet_bool() ? -1 : 0; }   /* result ignored by the library: not counted as a fault */
 static FILE g_stream;
 FILE *fopen(const char *path, const char *mode) { if (FAULT()) { g_fopen_ok = 0; return NULL; } g_fopen_ok = 1; return &g_stream; }
